@@ -33,7 +33,7 @@ var accepted = map[string][]string{
 	"C08": {"get", "scan", "iter", "snapget", "snapiter", "txget", "txiter", "open", "panic"},
 	"C09": {"hang", "close-twice", "panic"},
 	"C10": {"wgroup", "lin", "hang", "panic"},
-	"C11": {"txget", "txiter", "get", "scan", "iter", "files-residue", "tx-open", "tx-commit", "write-err", "lin", "hang", "panic"},
+	"C11": {"txget", "txiter", "get", "scan", "iter", "open", "files-residue", "tx-open", "tx-commit", "write-err", "lin", "hang", "panic"},
 	"C12": {"journal", "panic"},
 	"C13": {"table", "panic"},
 	"C14": {"memdb", "panic", "hang"},
